@@ -9,7 +9,7 @@ TABLES = os.path.join(os.path.dirname(os.path.dirname(os.path.abspath(__file__))
 def run(ctx):
     ctx.clause = ("in everything reachable from equality, hashing, canonicalisation and diffing a source location is "
                   "only ever copied, never compared, branched on, ordered or hashed (one listed kernel-only exception)")
-    ctx.rules = ["R-NOLOC", "R-LOOPMEMO"]
+    ctx.rules = ["R-NOLOC", "R-LOOPMEMO", "R-NOPARMNAME"]
     with open(os.path.join(TABLES, "noloc_exceptions.json")) as fh:
         exc = json.load(fh)["deciding_readers"]
     P = ctx.program(None)
@@ -19,5 +19,33 @@ def run(ctx):
     from rules import memokey_rule
     k = memokey_rule.check_loopmemo(ctx, P, [f for f in P.all_funcs() if f.relfile.startswith("src/")])
     ctx.note("R-LOOPMEMO: %d flag-guarded computation(s) inside loops in the library" % k)
+    check_noparmname(ctx, P)
     ctx.assume("other neutral edits (translation-unit layout, declaration order, DIE de-duplication) are runtime "
                "behaviour and are not decided")
+
+
+
+def check_noparmname(ctx, P):
+    """R-NOPARMNAME: renaming a parameter is ABI neutral.  ir::equals(function_decl::parameter) - what function types,
+    function declarations and fn_parm_diff::has_changes compare parameters with - reads of its operands nothing that
+    carries the name: no get_name / get_qualified_name / get_pretty_representation / get_linkage_name on `l` or `r`, and no
+    delegation to the decl_base overload (which compares names)."""
+    from engine.facts import walk, call_args, member_call_object
+    from engine.compdb import AnalysisBroken
+    fs = [f for f in P.fn("abigail::ir::equals") if not f.dep and f.cfg() is not None and "function_decl::parameter &" in f.sig]
+    if len(fs) != 1:
+        raise AnalysisBroken("anchor vanished: ir::equals(const function_decl::parameter&, ...)")
+    f = fs[0]
+    ctx.analysed(f)
+    ops = set(f.r["params"][:2])
+    NAME = ("get_name", "get_qualified_name", "get_pretty_representation", "get_linkage_name", "get_name_id", "get_qualified_parent_name")
+    reads = sorted({(f.decl(x) or {}).get("n") for x in f.nodes() if x["k"] == "CXXMemberCallExpr" and
+                    any(y["k"] == "DeclRefExpr" and y.get("d") in ops for y in walk(member_call_object(x)))})
+    bad = [r for r in reads if r in NAME]
+    deleg = [x for x in f.nodes() if x["k"] == "CallExpr" and (f.decl(x) or {}).get("n") == "equals" and
+             any(y["k"] == "DeclRefExpr" and y.get("d") in ops for a in call_args(x)[:2] for y in walk(a))]
+    ctx.ob("R-NOPARMNAME", "equals(function_decl::parameter) does not look at the parameters' names", not bad and not deleg, f.loc(),
+           "reads %s" % ", ".join(reads) if not bad and not deleg else
+           "reads %s%s: renaming a parameter makes two function types unequal" % (bad, " and delegates to another equals overload" if deleg else ""))
+    if len(reads) < 3:
+        raise AnalysisBroken("anchor vanished: equals(function_decl::parameter) reads %s" % reads)
